@@ -605,7 +605,8 @@ RESERVED = {"Real": 1, "Integer": 2, "Boolean": 3, "String": 4, "value": 5, "min
             "parameter": 21, "constant": 22, "discrete": 23, "flow": 24, "class": 25, "block": 26, "record": 27,
             "state": 28, "+": 30, "-": 31, "*": 32, "/": 33}
 ERR = {"ClassNotFoundError": "ClassNotFound", "IndexError": "IndexErr", "ModificationTargetNotFound": "ModTargetNotFound",
-       "KeyError": "KeyErr", "Exception": "OtherExc"}
+       "KeyError": "KeyErr", "Exception": "OtherExc",
+       "RecursionError": "OutOfFuel"}      # unbounded class recursion: the model runs out of fuel
 
 
 class Ids:
@@ -908,6 +909,8 @@ def gen_case(rng, shape=None):
     for i in range(nclasses):
         name = "ABCDE"[i]
         where = ["P"] if shape in ("package", "shadow") and rng.random() < 0.5 else []
+        if where and rng.random() < 0.35 and not any(x.cls["name"] == "M" for x in infos):
+            name = "M"          # simple names are reused: P.M below the top-level model M (scopes need full paths)
         info = Info(mk_class(name), where)
         frm = where + [name]
         # extends (before own elements, so that names stay disjoint)
@@ -961,7 +964,7 @@ def gen_case(rng, shape=None):
     if shape == "shadow":
         # a class of the same name as one used inside package P, visible from M but not meant by P's classes
         used = [c for c in pkg_classes if c["kind"] != "package"]
-        victims = [c["name"] for c in used if any(s["type"] == [c["name"]] for o in pkg_classes for s in o.get("symbols", []))]
+        victims = [c["name"] for c in used if c["name"] != "M" and any(s["type"] == [c["name"]] for o in pkg_classes for s in o.get("symbols", []))]
         if victims and not any(c["name"] == victims[0] for c in top_classes):
             v = rng.choice(victims)
             if rng.random() < 0.5:
